@@ -38,16 +38,30 @@ type CaseC19 struct {
 	A DescC19 `json:"a"`
 	B DescC19 `json:"b"`
 	C DescC19 `json:"c"`
+	// Track: before the relations are evaluated the descriptors go through a state tracker (the relations depend on the
+	// descriptors' values only, not on what a tracker has seen): 1 = B, C, then a program breakaway; 2 = A, B, C, then Close(A);
+	// 3 = B, a breakaway, then A
+	Track int `json:"track,omitempty"`
 }
 
 func genDescC19(t *rapid.T, label string, like *DescC19) DescC19 {
 	d := DescC19{}
 	d.Rest = genSegDesc(t, false)
 	d.Rest.Cancel = false
+	vss := rapid.IntRange(0, 5).Draw(t, label+"-vss") == 0
+	if vss {
+		// the multiple-UPID list of a stream-switch signal (what the tracker's duplicate rule looks at): not a compared attribute
+		d.Rest.NotRestricted = false
+		d.Rest.UPIDType, d.Rest.UPID = 0x0D, ref.Hex{}
+		d.Rest.MID = []ref.SegUPID{{Type: 0x09, Body: ref.Hex(fmt.Sprintf("BLACKOUT:sig-%d", rapid.IntRange(0, 1).Draw(t, label+"-vss-id")))}, {Type: 0x0E, Body: ref.Hex("comcast:linear:licenserotation")}}
+	}
 	if rapid.IntRange(0, 2).Draw(t, label+"-type-kind") == 0 {
 		d.Type = rapid.Byte().Draw(t, label+"-type-any")
 	} else {
 		d.Type = rapid.SampledFrom(segTypesNamed).Draw(t, label+"-type")
+	}
+	if vss && rapid.Bool().Draw(t, label+"-vss-type") {
+		d.Type = 0x40
 	}
 	d.Event = uint32(rapid.IntRange(1, 3).Draw(t, label+"-event"))
 	d.HasPTS = rapid.IntRange(0, 5).Draw(t, label+"-haspts") != 0
@@ -117,7 +131,40 @@ func genC19(t *rapid.T) CaseC19 {
 	a := genDescC19(t, "a", nil)
 	b := genDescC19(t, "b", &a)
 	c := genDescC19(t, "c", &a)
-	return CaseC19{A: a, B: b, C: c}
+	k := CaseC19{A: a, B: b, C: c}
+	if rapid.IntRange(0, 2).Draw(t, "tracked") == 0 {
+		k.Track = rapid.IntRange(1, 3).Draw(t, "track-kind")
+	}
+	return k
+}
+
+// c19Track runs the descriptors through a state tracker first; whatever the tracker answers is C10's business.
+func c19Track(c CaseC19, objs []scte35.SegmentationDescriptor) *hx.Failure {
+	if c.Track == 0 {
+		return nil
+	}
+	st := scte35.NewState()
+	brk, f := c19Build(&DescC19{Type: 0x13, Event: c.B.Event, HasPTS: true, PTS: (c.B.PTS + 7) & m33,
+		Rest: ref.SpliceDesc{Prog: true, NotRestricted: true, UPID: ref.Hex{}, MID: []ref.SegUPID{}, Comps: []ref.SegOffset{}}})
+	if f != nil {
+		return f
+	}
+	switch c.Track {
+	case 1:
+		st.ProcessDescriptor(objs[1])
+		st.ProcessDescriptor(objs[2])
+		st.ProcessDescriptor(brk)
+	case 2:
+		st.ProcessDescriptor(objs[0])
+		st.ProcessDescriptor(objs[1])
+		st.ProcessDescriptor(objs[2])
+		st.Close(objs[0])
+	default:
+		st.ProcessDescriptor(objs[1])
+		st.ProcessDescriptor(brk)
+		st.ProcessDescriptor(objs[0])
+	}
+	return nil
 }
 
 // c19Build makes a real descriptor attached to a real signal.
@@ -240,6 +287,10 @@ func checkC19(c CaseC19, x *hx.Ctx) *hx.Failure {
 		}
 		objs = append(objs, o)
 	}
+	if f := c19Track(c, objs); f != nil {
+		return f
+	}
+	x.LabelIf(c.Track != 0, "descriptors-seen-by-a-tracker")
 	// the same relations with decorated arguments
 	for i, di := range ds {
 		for j, dj := range ds {
@@ -320,7 +371,7 @@ func descKey(d *DescC19) string {
 var propC19 = hx.Register(hx.Prop[CaseC19]{ID: "C19", Gen: genC19, Check: checkC19})
 
 func c19Rule() {
-	hx.Rec("C19").SetRule("rapid cases: three descriptors (named or arbitrary type, event id in 1..3, signal with PTS in {1000,2000,2^33-1} (time_signal or timed splice_insert) or without PTS (splice_null, immediate or cancelled splice_insert, time-less time_signal, or no signal at all: a descriptor fresh from the creation API), segment number/expected in 0..2, sub-segment fields for 0x34/0x36), the second and third derived from the first with one or two compared attributes (incl. the type: start/end partner or any named type) changed half of the time, ALL other descriptor fields drawn freely or (one derived descriptor in three) identical to the first's (flags, components, duration, UPID/MID, the cancel indicator on API-built ones, the split of the signal time into pts_time + pts_adjustment), each realised either through the creation API or by decoding a reference encoding; CanClose on all 9 ordered pairs vs the hand-transcribed rule table (also with the argument wrapped in a decorator type that embeds the interface), IsIn/IsOut vs the documented lists, Equal vs its definition, symmetry, transitivity and congruence on the triple. Enumerated: all 256x256 type pairs x event-equal x PTS-equal x (segment number = expected) x incoming has sub-segments (65536 x 16), IsIn/IsOut for all 256 types, and all ordered pairs of a 720-descriptor family for the equality laws. Non-trivial: a pair with a table entry, or an equal pair.",
+	hx.Rec("C19").SetRule("rapid cases: three descriptors (named or arbitrary type, event id in 1..3, signal with PTS in {1000,2000,2^33-1} (time_signal or timed splice_insert) or without PTS (splice_null, immediate or cancelled splice_insert, time-less time_signal, or no signal at all: a descriptor fresh from the creation API), segment number/expected in 0..2, sub-segment fields for 0x34/0x36), the second and third derived from the first with one or two compared attributes (incl. the type: start/end partner or any named type) changed half of the time, ALL other descriptor fields drawn freely or (one derived descriptor in three) identical to the first's (flags, components, duration, UPID/MID, the cancel indicator on API-built ones, the split of the signal time into pts_time + pts_adjustment), each realised either through the creation API or by decoding a reference encoding; one descriptor in six carries the multiple-UPID list of a stream-switch signal (half of those with type 0x40); in one case in three the three descriptors first go through a state tracker (processed, followed by a program breakaway, or closed explicitly); CanClose on all 9 ordered pairs vs the hand-transcribed rule table (also with the argument wrapped in a decorator type that embeds the interface), IsIn/IsOut vs the documented lists, Equal vs its definition, symmetry, transitivity and congruence on the triple. Enumerated: all 256x256 type pairs x event-equal x PTS-equal x (segment number = expected) x incoming has sub-segments (65536 x 16), IsIn/IsOut for all 256 types, and all ordered pairs of a 720-descriptor family for the equality laws. Non-trivial: a pair with a table entry, or an equal pair.",
 		"the rule table is a transcription of the pinned commit's documented rules (the property is defined relative to it)",
 		"the DiffPTS rule is only asserted when both signals carry a PTS")
 }
